@@ -3,6 +3,7 @@ import FordModel.Access
 import FordModel.AccessSpec
 import FordModel.AccessNames
 import FordModel.AccessImpl
+import FordModel.AccessPage
 namespace Ford
 open Proto Access
 
@@ -109,6 +110,15 @@ def showOut (o : Out) : List Str :=
   o.ents.flatMap showEnt ++ o.publicList.map (fun n => colon [['L'], n])
   ++ o.exports.map (fun x => colon [['X'], tabName x.1, x.2])
 
+def pkindName : PKind → Str
+  | .var => "var".toList | .type => "type".toList | .comp => "comp".toList | .bind => "bind".toList
+  | .generic => "generic".toList | .member => "member".toList | .ref => "ref".toList | .wrapper => "wrapper".toList
+  | .absIface => "absiface".toList | .func => "func".toList | .sub => "sub".toList | .mproc => "mproc".toList
+
+/-- `Z:<kind>:<owner>:<name>:<word or ->`: one place of the module page with a visibility word -/
+def showLine (l : PLine) : Str :=
+  colon [['Z'], pkindName l.kind, l.owner, l.name, match l.shown with | some p => permName p | none => ['-']]
+
 /-- variant field: `p`/`a` = attr_dict entry deleted per entity / after the loop, followed by `e` when the
     constructor takes its type's permission before the export tables are built and by `s` when process_attribs
     has a loop over the interface bodies of generic interfaces -/
@@ -121,14 +131,16 @@ open C04D in
 def dispatchC04 : List Str → Option (List Str)
   | cmd :: args =>
     if cmd == "c04.run".toList then
-      -- c04.run <variant> <m|s> stmt*      (variant letter `g`: generic-spec keys lose their blanks)
+      -- c04.run <variant> <m|s> stmt*      (variant letter `g`: generic-spec keys lose their blanks; `i`: access
+      -- statements reach the short-form bodies of separate module procedures)
       -- fields `H:name:perm` (host interface bodies) and `M:name` (short-form implementations) may stand among them
       match args with
       | v :: scope :: fields =>
         match (fields.filter (fun f => !isHost f)).mapM xstmtOf, (fields.filter isHost).mapM hostOf with
         | some xs, some host =>
-          let r := runX (variantOf v) (v.contains 'g') (scope == ['s']) host xs
-          some ("ok".toList :: showOut r.out ++ r.impls.map (fun k => colon [['M'], k.name, permName k.perm]))
+          let r := runXI (variantOf v) (v.contains 'g') (scope == ['s']) (v.contains 'i') host xs
+          some ("ok".toList :: showOut r.out ++ r.impls.map (fun k => colon [['M'], k.name, permName k.perm])
+                ++ (pageView (unitPerm (v.contains 'g') (scope == ['s']) xs) r).map showLine)
         | _, _ => some ["bad-request".toList]
       | _ => some ["bad-request".toList]
     else if cmd == "c04.spec".toList then
